@@ -1,2 +1,91 @@
-/- placeholder: the C11 driver is not built yet -/
-def main : IO Unit := IO.println "C11: driver not built yet"
+/- C11 line-protocol driver: generated model (Tetl.C11.Gen) <TAB> calendar spec (Tetl.C11.Spec). -/
+import Tetl.Proto
+import Tetl.C11.Gen
+import Tetl.C11.Spec
+namespace Tetl.C11.Driver
+open Tetl.Proto Tetl.C11
+
+def guardUB (ok : Bool) (s : String) : String := if ok then s else "ub"
+def t3 (t : Int × Int × Int) : String := s!"{t.1},{t.2.1},{t.2.2}"
+def t2 (t : Int × Int) : String := s!"{t.1},{t.2}"
+def b2s (b : Bool) : String := if b then "1" else "0"
+
+def step (_ : Unit) (l : Line) : Unit × String :=
+  let bad := ((), "bad-op\tbad-op")
+  let out (m s : String) := ((), m ++ "\t" ++ s)
+  match l.op with
+  | "civil" =>
+    match l.int? "z" with
+    | some z =>
+      let s := Spec.civil z
+      out (guardUB (Gen.civil_from_days_ub z) (t3 (Gen.civil_from_days z))) s!"{s.y},{s.m},{s.d}"
+    | none => bad
+  | "days" =>
+    match l.int? "y", l.int? "m", l.int? "d" with
+    | some y, some m, some d =>
+      out (guardUB (Gen.days_from_civil_ub y m d) (toString (Gen.days_from_civil y m d)))
+        (toString (Spec.daysOf ⟨y, m.toNat, d.toNat⟩))
+    | _, _, _ => bad
+  | "weekday" =>
+    match l.int? "z" with
+    | some z => out (guardUB (Gen.weekday_from_days_ub z) (toString (Gen.weekday_from_days z))) (toString (Spec.weekday z))
+    | none => bad
+  | "ok" =>
+    match l.int? "y", l.int? "m", l.int? "d" with
+    | some y, some m, some d =>
+      -- the harness constructs year{y}, month{m}, day{d}: the generated constructors are applied first
+      let (yy, mm, dd) := (Gen.mkYear y, Gen.mkMonth m, Gen.mkDay d)
+      out (guardUB (Gen.ymd_ok_ub yy mm dd) (b2s (Gen.ymd_ok yy mm dd)))
+        (b2s (y != -32768 && (Spec.Date.Valid ⟨y, m.toNat, d.toNat⟩)))
+    | _, _, _ => bad
+  | "is_leap" =>
+    match l.int? "y" with
+    | some y => out (guardUB (Gen.year_is_leap_ub y) (b2s (Gen.year_is_leap y))) (b2s (Spec.isLeap y))
+    | none => bad
+  | "last_day" =>
+    match l.int? "y", l.int? "m" with
+    | some y, some m =>
+      out (guardUB (Gen.last_day_of_month_ub y m) (toString (Gen.last_day_of_month y m))) (toString (Spec.monthLength y m.toNat))
+    | _, _ => bad
+  | "month_plus" =>
+    match l.int? "m", l.int? "k" with
+    | some m, some k => out (guardUB (Gen.month_plus_ub m k) (toString (Gen.month_plus m k))) (toString (Spec.monthPlus m k))
+    | _, _ => bad
+  | "month_diff" =>
+    match l.int? "a", l.int? "b" with
+    | some a, some b => out (guardUB (Gen.month_diff_ub a b) (toString (Gen.month_diff a b))) (toString ((a - b) % 12))
+    | _, _ => bad
+  | "ym_plus" =>
+    match l.int? "y", l.int? "m", l.int? "k" with
+    | some y, some m, some k =>
+      out (guardUB (Gen.year_month_plus_ub y m k) (t2 (Gen.year_month_plus y m k))) (t2 (Spec.yearMonthPlus y m k))
+    | _, _, _ => bad
+  | "year_plus" =>
+    match l.int? "y", l.int? "k" with
+    | some y, some k => out (guardUB (Gen.year_plus_ub y k) (toString (Gen.year_plus y k))) (toString (y + k))
+    | _, _ => bad
+  | "wd_plus" =>
+    match l.int? "w", l.int? "k" with
+    | some w, some k => out (guardUB (Gen.weekday_plus_ub w k) (toString (Gen.weekday_plus w k))) (toString (Spec.weekdayPlus w k))
+    | _, _ => bad
+  | "wd_minus" =>
+    match l.int? "w", l.int? "k" with
+    | some w, some k => out (guardUB (Gen.weekday_minus_ub w k) (toString (Gen.weekday_minus w k))) (toString (Spec.weekdayPlus w (-k)))
+    | _, _ => bad
+  | "wd_add_assign" =>
+    match l.int? "w", l.int? "k" with
+    | some w, some k => out (guardUB (Gen.weekday_add_assign_ub w k) (toString (Gen.weekday_add_assign w k))) (toString (Spec.weekdayPlus w k))
+    | _, _ => bad
+  | "wd_sub_assign" =>
+    match l.int? "w", l.int? "k" with
+    | some w, some k => out (guardUB (Gen.weekday_sub_assign_ub w k) (toString (Gen.weekday_sub_assign w k))) (toString (Spec.weekdayPlus w (-k)))
+    | _, _ => bad
+  | "wd_diff" =>
+    match l.int? "a", l.int? "b" with
+    | some a, some b => out (guardUB (Gen.weekday_diff_ub a b) (toString (Gen.weekday_diff a b))) (toString ((a - b) % 7))
+    | _, _ => bad
+  | _ => bad
+
+end Tetl.C11.Driver
+
+def main : IO Unit := Tetl.Proto.runDriver () Tetl.C11.Driver.step
